@@ -90,6 +90,7 @@ theorem check_accepts_compiled (uid u : Nat) (src : List Char) (upd : List (Name
     (hser : bin.serialize = .ok img)
     (hloc : scF.numLocal ≤ 6)
     (hne : evs ≠ [])
+    (hst : Stratified evs = true)
     (hdu : DefBeforeUse ds evs = true) (hlits : LitsOk evs = true) (hwr : WritesOk evs = true)
     (hfresh : ∀ d ∈ ds, (Scope.new uid).get d.var = none ↔ (Scope.new 0).get d.var = none)
     (env0 : Env) (rest : List Env) (c0 : Conn) (h0 : c0.regs = Regs.zero) :
@@ -100,14 +101,12 @@ theorem check_accepts_compiled (uid u : Nat) (src : List Char) (upd : List (Name
   simp only
   split
   · rfl
-  · rename_i hst
-    split
+  · split
     · rfl
     · rename_i hnames
       split
       · rfl
       · rename_i decls hv
-        simp only [Bool.not_eq_true', Bool.not_eq_false] at hst
         simp only [Bool.not_eq_true', Bool.not_eq_false, Bool.and_eq_true, decide_eq_true_eq, List.all_eq_true,
           Option.isNone_iff_eq_none] at hnames
         have hfr : ∀ d ∈ ds, (Scope.new uid).get d.var = none := fun d hd => (hfresh d hd).mpr (hnames.2 d hd)
